@@ -285,7 +285,7 @@ func clip(s string) string {
 // Run is the C16 monitor.
 func Run(r *ev.Run) {
 	r.Rule = "for each of the 128 presence patterns (six metadata keys + context present/absent) x N seeded cases: console EncoderConfig (built-in, nil and no-op sub-encoders, separators incl. multi-byte and '{', line endings) x entry x With-chain x fields; the line must be exactly the present columns (learned by running the configured sub-encoder against a recorder) joined by the separator, then separator + one valid JSON object equal to the JSON encoder's fields for the same chain, then the stack, then the line ending; distinct = distinct (pattern, config, shape)"
-	per := r.N(400, 4000)
+	per := r.N(400, 20000)
 	for pat := 0; pat < 128; pat++ {
 		for k := 0; k < per; k++ {
 			i := pat*per + k
